@@ -2,6 +2,7 @@ import PicoProofs.EncRefine
 import PicoProofs.AnyBytes
 import PicoProofs.WireLemmas
 import PicoProofs.Tie
+import PicoModel.Sample
 /-
 C06 — Marshal emits the canonical deterministic protobuf bytes.
 -/
@@ -54,5 +55,10 @@ theorem C06_defaults_omitted (k : Scalar) (f : Nat) (v : Val) (h : scalarOk k v 
 theorem C06_repeated_packed (k : Scalar) (f : Nat) (vs : List Val) (h : vs.all (scalarOk k) = true) :
     Enc.writeRepeated false k (f : Int) (vs.map Val.toSVal)
       = if vs.isEmpty then [] else Spec.packed k f (vs.map Val.toSVal) := writeRepeated_eq k f vs h
+
+/-- non-vacuity: distinct field numbers, a well-typed value, a capturing message -/
+example : ((S1.msg 0).fields.map (·.num)).Nodup := by decide +kernel
+example : wtMsg S1 false 0 v1 = true := by decide +kernel
+example : (S1.msg 1).capture = true := by decide +kernel
 
 end Pico.Props
